@@ -13,6 +13,10 @@ CLAIMS = {
   text="Lean 4 theorems for every history of add / status / pickup (any batch size, any number of recipients) and any fault: the handlers as written refine the queue Spec (C15_model_refines_spec); delivered ++ held = accepted (C15_conservation) hence FIFO, exactly-once and no loss under any failure; count = |held|; failed pickup is a no-op. Tie: correspondence of the real messagepickup service (fault-injecting store and outbound) with the compiled Lean model incl. the stored inbox document",
   note="trusted: Lean kernel; allowed axioms; harness fault injection and mock outbound; handlers driven synchronously through a verif-tagged export; JSON encoding of the inbox modelled as (list, count)",
   technique="Lean 4 invariant/refinement proof + fault-injecting correspondence"),
+ "C08": dict(
+  text="Lean 4 theorems about the model of jose.parseCompacted + jwt.NewVerifier / GetVerifier + didsignjwt key resolution + the signature verifiers, for every token text, header and set of produced signatures: an accepted attached token is character for character <signed message>.<base64url(signature)> of a signature the holder of the resolved key produced over exactly that message, with a procedure of the algorithm named in the header, under a key of that algorithm's type (C08_sound_attached, C08_token_is_signed_text, C08_no_malleability, sigVerify_sound, verify_sound, resolve_exact); algorithms outside the table (none, HS256, other spellings) are refused by every signature-checking entry (C08_unknown_alg, famOf_none); an empty signature never verifies (sigVerify_empty). Base64url model of encoding/base64: round trip for every byte string, canonical decoding is injective, the lenient decoder is malleable (B64.decodeLenient_encode, decodeCanon_injective, lenient_malleable_*). Tie: correspondence of the four real entry points on hand-built, mutated and crossed tokens (all algorithms, key types, raw/JWK methods, attached/detached/b64=false) with the compiled model run on the very token text, the Spec column re-checking the theorem's conclusion on every accepted token; random strings tie the base64 model to the standard library",
+  note="trusted: Lean kernel; allowed axioms; ideal signatures (only produced tuples verify; ECDSA (r,n-s) twin outside the model); Lean.Json for header parsing; DER ECDSA signatures accepted by design; completeness (honest tokens accepted) is checked by correspondence only",
+  technique="Lean 4 soundness proof of the parse/verify decision logic + base64url model + token-level correspondence"),
  "C14": dict(
   text="Lean 4 theorems: for routing-key chains of every length, unwrapping by the mediators in order hands exactly the packed original to the recipient key and each mediator reads only the previous key and an envelope packed for that key (nest_snoc, C14_view, C14_unwrap); nobody holding none of the recipient keys - any coalition of all mediators - can obtain the application message from what is sent (C14_opaque, with C14_recipient_reads as non-vacuity); for every history of keylist updates / forwards / pickups from any number of clients the route table maps a key to its most recent registrant (C14_route_table), a forward goes to, or is held for, exactly that client (C14_forward_registered, C14_held_there, C14_held_only_there) and an unregistered key is refused without effect (C14_forward_unregistered). Tie: correspondence of the real outbound dispatcher + packagers (own KMS per agent) + real mediator and messagepickup services per hop, over five media-type profiles, all key types, chains 0..6, with the compiled term-level model and the closed-form contract",
   note="trusted: Lean kernel; allowed axioms; symbolic encryption (C01/C02 carry the cryptographic half); recording bus; handlers driven synchronously through verif hooks; route table modelled as written (last writer wins, remove unimplemented - design remarks, not counted as violations)",
